@@ -122,13 +122,18 @@ def run_scenario(sc: dict[str, Any]) -> dict[str, Any]:
             elif op == 'delete':
                 sim.delete('o1')
             elif op == 'finadd':
+                md = (sim.obj('o1') or {}).get('metadata', {})
+                if a[0] in md.get('finalizers', []) or md.get('deletionTimestamp'):
+                    return        # the API refuses new finalizers on an object being deleted
                 sim.rec('env.fin', op='add', name=a[0])
                 sim.edit('o1', lambda b: b['metadata'].setdefault('finalizers', []).append(a[0]), actor='foreign')
             elif op == 'findel':
+                if a[0] not in (sim.obj('o1') or {}).get('metadata', {}).get('finalizers', []):
+                    return
                 sim.rec('env.fin', op='del', name=a[0])
                 sim.edit('o1', lambda b: b['metadata']['finalizers'].remove(a[0]), actor='foreign')
             elif op == 'kill':
-                if o is not None and not o.killed: o.kill()
+                if o is not None and not o.killed and not o.done: o.kill()
             elif op == 'stop':
                 if o is not None and not o.done: o.stop()
             elif op == 'start':
@@ -179,8 +184,8 @@ def run_scenario(sc: dict[str, Any]) -> dict[str, Any]:
 def _safe(fn, *a):
     try:
         fn(*a)
-    except KeyError:
-        pass        # the object is gone: the scripted edit has no target any more
+    except (KeyError, ValueError):
+        pass        # the object (or the finalizer to remove) is gone: the scripted edit has no target any more
 
 
 def conf_of(sc: dict[str, Any]) -> dict[str, Any]:
@@ -444,7 +449,7 @@ def gen_scenarios(seed: int, n: int, profile: str) -> list[dict[str, Any]]:
                 env.append((t, ph, op))
         if not alive:
             t += rnd.choice([0, 1, 4]); env.append((t, 1, 'start'))
-        if held:
+        if profile == 'consistency':
             t += rnd.choice([1, 3, 7]); env.append((t, 1, 'release'))
         # sanitise foreign finalizer ops: add only if absent, delete only if present (checked at run time by _safe)
         sc = {'id': f'{profile}-{seed}-{i}', 'handlers': hs, 'order': list(hs), 'lifecycle': lifecycle,
@@ -453,3 +458,21 @@ def gen_scenarios(seed: int, n: int, profile: str) -> list[dict[str, Any]]:
               'env': env, 'end': t + 80, 'tail_from': t + 60, 'profile': profile}
         out.append(sc)
     return out
+
+
+def debug_trace(t: dict[str, Any], upto: int) -> str:
+    """Development aid: the specification's states along the longest explained prefix of one trace."""
+    scratch = tempfile.mkdtemp(prefix='vf-thd-')
+    try:
+        delays = {e['d'] for e in t['events'] if e['ev'] == 'inv'} | {0}
+        with open(os.path.join(scratch, 'THD.tla'), 'w') as f:
+            f.write(shard_module('THD', delays).replace('====', 'DebugInv == l <= ' + str(upto) + '\n===='))
+        path = os.path.join(scratch, 'traces.json')
+        with open(path, 'w') as f:
+            json.dump([{'id': t['id'], 'conf': t['conf'], 'init': t['init'], 'events': t['events']}], f)
+        cfg = CFG.replace('CONSTRAINT Book\nPOSTCONDITION Verdicts\n', 'INVARIANT DebugInv\n')
+        r = tlc.run(os.path.join(scratch, 'THD.tla'), cfg_text=cfg, workers=1, deque=True, env={'TRACE_FILE': path}, timeout=600)
+        return r.out
+    finally:
+        import shutil
+        shutil.rmtree(scratch, ignore_errors=True)
